@@ -3,6 +3,9 @@ mod case;
 mod p_c01;
 mod p_c02;
 mod p_c03;
+mod p_c04;
+mod p_c05;
+mod p_c19;
 mod delivery;
 mod spec;
 mod resp;
@@ -71,6 +74,9 @@ fn main() {
                 "C01" => p_c01::generate(seed, tier, &mut sink),
                 "C02" => p_c02::generate(seed, tier, &mut sink),
                 "C03" => p_c03::generate(seed, tier, &mut sink),
+                "C04" => p_c04::generate(seed, tier, &mut sink),
+                "C05" => p_c05::generate(seed, tier, &mut sink),
+                "C19" => p_c19::generate(seed, tier, &mut sink),
                 _ => {
                     eprintln!("unknown property {}", prop);
                     std::process::exit(2);
